@@ -33,22 +33,23 @@ type CLIHooks struct {
 
 // Worker is the per-process state.
 type Worker struct {
-	hooks    CLIHooks
-	job      *simapi.Job
-	corpus   *Corpus
-	index    *CorpusIndex
-	need     []string
-	ref      *Corpus // independent second load, used only by the reference model
-	refTable *RefTable
-	infos    []*linter.CheckerInfo
-	infoBy   map[string]*linter.CheckerInfo
-	defaults map[string]map[string]any
-	out      *bufio.Writer
-	outFile  *os.File
-	sink     *logSink
-	curRun   *simapi.RunConfig
-	raceLog  string
-	raceOff  int64
+	hooks     CLIHooks
+	job       *simapi.Job
+	corpus    *Corpus
+	index     *CorpusIndex
+	need      []string
+	afterInit func()
+	ref       *Corpus // independent second load, used only by the reference model
+	refTable  *RefTable
+	infos     []*linter.CheckerInfo
+	infoBy    map[string]*linter.CheckerInfo
+	defaults  map[string]map[string]any
+	out       *bufio.Writer
+	outFile   *os.File
+	sink      *logSink
+	curRun    *simapi.RunConfig
+	raceLog   string
+	raceOff   int64
 }
 
 func (w *Worker) emit(r *simapi.RunResult) {
@@ -329,6 +330,10 @@ func (w *Worker) execOne(rc *simapi.RunConfig) {
 		r = w.runC03(rc)
 	case "cli-sched":
 		r = w.runC04CLI(rc)
+	case "lib-frame":
+		r = w.runC05Frame(rc)
+	case "cli-switch-fp":
+		r = w.runC05Switch(rc)
 	default:
 		r = w.runOther(rc)
 	}
@@ -372,6 +377,8 @@ func (w *Worker) generate(prop, tier string, seed uint64, i int) (*simapi.RunCon
 		w.genC03(rc)
 	case "C04":
 		w.genC04(rc)
+	case "C05":
+		w.genC05(rc)
 	default:
 		if err := w.genOther(rc); err != nil {
 			return nil, err
